@@ -87,10 +87,7 @@ func vC02cast(root *vXElem, o vDecOpts, indent bool, cast bool) {
 }
 
 func H_C02_roundtrip() {
-	ts := vTreeSpec{depth: 1, maxKids: 2, maxAttrs: 1, nameAlpha: "ab", attrAlpha: "ab", textAlpha: "x", textMax: 1, valMin: 1}
-	if vTier() == 1 {
-		ts = vTreeSpec{depth: 2, maxKids: 2, maxAttrs: 1, nameAlpha: "ab", attrAlpha: "ab", textAlpha: "x", textMax: 1, valMin: 1}
-	}
+	ts := vTreeSpec{depth: vP("depth", 1, 2), maxKids: vP("kids", 2, 2), maxAttrs: vP("attrs", 1, 1), nameAlpha: "ab", attrAlpha: "ab", textAlpha: "x", textMax: 1, valMin: 1}
 	root := vNondetElem(ts, ts.depth)
 	vC02(root, vDecOpts{attrPrefix: "-", textKey: "#text"}, vChoose(2) == 1)
 }
@@ -98,10 +95,7 @@ func H_C02_roundtrip() {
 // values: the five special characters, blanks, tabs, newlines, number and boolean look-alikes
 func H_C02_roundtrip_values() {
 	alpha := "x <&>\"'\n\t1t"
-	n := 1
-	if vTier() == 1 {
-		n = 2
-	}
+	n := vP("text", 1, 2)
 	kid := &vXElem{name: "k", items: []vXItem{{kind: 1, text: vNondetString(1, n, alpha)}}}
 	root := &vXElem{name: "r", attrs: [][2]string{{"a", vNondetString(0, n, alpha)}}}
 	switch vChoose(3) {
@@ -153,10 +147,7 @@ func H_C02_roundtrip_cast() {
 
 // values that contain escape sequences as literal text (&amp; &lt; &#x41; ]]> <![CDATA[ ...)
 func H_C02_roundtrip_entities() {
-	n := 2
-	if vTier() == 1 {
-		n = 3
-	}
+	n := vP("pieces", 2, 3)
 	v := vNondetSpecial(n)
 	vAssume(refTrim(v, false) != "")
 	kid := &vXElem{name: "k", items: []vXItem{{kind: 1, text: v}}}
